@@ -153,6 +153,12 @@ func (e *Exec) diffSession(ss *models.Session, s *MSession) []Diff {
 	if ss.ParticipantCount() != len(got) {
 		add("participant count %d but %d participants listed", ss.ParticipantCount(), len(got))
 	}
+	// every member's connection has exactly one per-frame callback registered (it flushes the
+	// member's coalesced pose and component updates); read through an overlay accessor
+	tag = "C11,C13,C09"
+	if n := models.VerifFrameHandlerCount(ss); n != len(got) {
+		add("session has %d members but %d per-frame callbacks are registered (a member without one never gets its pose/component updates relayed)", len(got), n)
+	}
 	tag = "C05,C06,C11"
 	ents := map[uint32]bool{}
 	for _, en := range ss.Entities() {
